@@ -12,6 +12,7 @@ import (
 type zzCfg struct {
 	comp, rep, rel bool
 	nl             bool // segment delimiter is LF (a CR right before it is dropped) instead of ~
+	two            bool // segment delimiter is the two-byte string "~\n" (a CR before it is data)
 }
 
 func (c zzCfg) seg() byte {
@@ -23,6 +24,9 @@ func (c zzCfg) seg() byte {
 
 func (c zzCfg) decl() *FileDecl {
 	d := &FileDecl{SegDelim: string([]byte{c.seg()}), ElemDelim: "*"}
+	if c.two {
+		d.SegDelim = "~\n"
+	}
 	if c.comp {
 		d.CompDelim = zzStrPtr(":")
 	}
@@ -51,6 +55,12 @@ func zzSpecSegments(in []byte, cfg zzCfg) (segs [][]byte, tail []byte) {
 			esc = false
 		case cfg.rel && b == '?':
 			esc = true
+		case cfg.two:
+			if b == '~' && i+1 < len(in) && in[i+1] == '\n' {
+				segs = append(segs, in[start:i])
+				start = i + 2
+				i++
+			}
 		case b == cfg.seg():
 			segs = append(segs, in[start:i]) // body without the delimiter
 			start = i + 1
@@ -120,6 +130,9 @@ func zzAlphabet(in []byte, cfg zzCfg, wide bool) {
 	if cfg.nl {
 		set = "*A\n\r"
 	}
+	if cfg.two {
+		set = "~*A\n\r"
+	}
 	if cfg.comp {
 		set += ":"
 	}
@@ -157,9 +170,9 @@ func zzAlphabet(in []byte, cfg zzCfg, wide bool) {
 // input equal the reference tokenisation.
 func C07TokenVsSpec() {
 	L := zz.Param("L", 4)
-	k := zz.NondetChoice("cfg", 5)
+	k := zz.NondetChoice("cfg", 6)
 	cfg := []zzCfg{{comp: true, rep: true, rel: true}, {comp: true, rel: true}, {rel: true}, {comp: true, rep: true},
-		{comp: true, rel: true, nl: true}}[k]
+		{comp: true, rel: true, nl: true}, {rel: true, two: true}}[k]
 	in := zz.NondetBytesN("in", zz.NondetChoice("len", L)+1)
 	zzAlphabet(in, cfg, zz.Param("wide", 0) == 1)
 	ReaderBufSize = zz.Param("bufsize", 128)
@@ -263,6 +276,21 @@ func C07Roundtrip() {
 		}
 	}
 	input = append(input, '~')
+	// declarations need not follow the order of the data: ascending or descending
+	// (element, component) order
+	type ec struct{ e, c int }
+	var order []ec
+	for e := 0; e < nelem; e++ {
+		for c := 0; c < ncomp; c++ {
+			order = append(order, ec{e, c})
+		}
+	}
+	if zz.NondetBool("declaredDescending") {
+		for i, j := 0, len(order)-1; i < j; i, j = i+1, j-1 {
+			order[i], order[j] = order[j], order[i]
+			elems[i], elems[j] = elems[j], elems[i]
+		}
+	}
 	switch variant {
 	case 1:
 		elems = append(elems, Elem{Name: "dup", Index: 1, CompIndex: zzIntPtr(1)})
@@ -292,12 +320,10 @@ func C07Roundtrip() {
 	zz.Assert(err == nil && n != nil, "well-formed segment is delivered")
 	zz.Cover("delivered")
 	child := n.FirstChild
-	for e := 0; e < nelem; e++ {
-		for c := 0; c < ncomp; c++ {
-			zz.Assert(child != nil && child.FirstChild != nil, "one node per declared element")
-			zz.Assert(child.FirstChild.Data == string(vals[e][c]), "element text equals the logical value (release characters removed)")
-			child = child.NextSibling
-		}
+	for _, o := range order {
+		zz.Assert(child != nil && child.FirstChild != nil, "one node per declared element")
+		zz.Assert(child.FirstChild.Data == string(vals[o.e][o.c]), "element text equals the logical value (release characters removed)")
+		child = child.NextSibling
 	}
 	switch variant {
 	case 1:
